@@ -140,6 +140,8 @@ class Item(object):
 
 class Timeline(object):
     def __init__(self, dicts, options=None, output_mode="svg"):
+        if options is None:
+            options = {}
         # update latex options
         latex_opts = {k: v for k, v in DEFAULT_OPTIONS["latex"].items()}
         if "latex" in options:
